@@ -552,6 +552,13 @@ func (q *Query) text(p *prep, insts []*sx.T, withQuants bool, seed int) string {
 var Solvers = [][]string{{"z3-new"}, {"z3"}, {"cvc5", "--strings-exp"}}
 
 func statusOf(out string) string {
+	// a solver error (undeclared symbol, sort mismatch) is an engine bug, never a verdict; the only
+	// tolerated error is z3 4.8.12 complaining about get-value after unsat
+	for _, ln := range strings.Split(out, "\n") {
+		if strings.Contains(ln, "(error") && !strings.Contains(ln, "model is not available") {
+			return "error"
+		}
+	}
 	for _, ln := range strings.Split(out, "\n") {
 		ln = strings.TrimSpace(ln)
 		if ln == "sat" || ln == "unsat" || ln == "unknown" {
@@ -593,7 +600,7 @@ func race(text string, timeout time.Duration, dumpTo string) (status, solver, ra
 	best := res{st: "unknown"}
 	for range Solvers {
 		r := <-ch
-		if r.st == "sat" || r.st == "unsat" {
+		if r.st == "sat" || r.st == "unsat" || r.st == "error" {
 			best = r
 			cancel()
 			break
